@@ -58,6 +58,12 @@ CLAIMED["C17"] = dict(
     technique="CBMC function contracts (dfcc) on extracted C; cvc5 (IEEE) / SAT (bits); bounded stand-in for 32-bit division",
     ref="6/C17")
 
+CLAIMED["C19"] = dict(
+    text="Proof for the clauses within reach: FixedArray<int> is extracted from PyImathFixedArray.h (system boost / CPython headers, library models for shared_array/any/PyErr) and contracts are enforced on canonical_index (Python index semantics, IndexError exactly outside [-len,len)), operator[] / direct_index (raise exactly for read-only arrays; element address through the mask; in bounds under the view invariant), makeReadOnly, match_dimension (invalid_argument exactly on mismatched lengths) and the four ReadOnly/Writable Direct/Masked access constructors that guard vectorised reads and writes; lemma over the contracts: nothing through which data could be written is handed out for a read-only array. This check found the missing 'throw' in WritableMaskedAccess, fixed in /repo (dceb7c3).",
+    note="Trusted: clang AST of the PyImath header with system boost/python3.11 headers, cxx2c and its library models (shared_array = bare pointer: ownership and lifetimes dropped), cbmc, cvc5. No differential run (the functions need boost.python to link; the accessor obligations have a native replay that links it). Element-address bounds are checked on 8-element buffers. Not covered: slices/setitem/ifelse/mask constructors, FixedArray2D/FixedMatrix/FixedVArray, StringTable, buffer protocol, lifetimes, Python level.",
+    technique="CBMC function contracts (dfcc) on extracted C of PyImath headers with assumed library models, cvc5",
+    ref="6/C19")
+
 NA = {
 }
 
